@@ -149,3 +149,8 @@ neu("handler-loop-respelled", [
      "    let mut created = false;\n    loop {\n        let outcome = server_state\n            .server\n            .add_version(client_id, parent_version_id, body.to_vec());\n        log::trace!(\"add_version attempt (client created: {created})\");\n        return match outcome {"),
     (AV, "                    txn.commit().map_err(failure_to_ise)?;\n                }\n                continue;", "                    txn.commit().map_err(failure_to_ise)?;\n                    created = true;\n                }\n                continue;"),
 ], "operation result bound to a local before the match; an extra local flag")
+
+neu("decline-conditions-merged", [
+    (SRV, "            search_len -= 1;\n            if search_len <= 0 || vid == NIL_VERSION_ID {\n                // this should not happen in normal operation, so warn about it\n                log::warn!(\"rejecting snapshot for version {version_id}: version is too old or no such version\");\n                return Ok(());\n            }\n\n            // get the parent version ID\n            if let Some(parent) = txn.get_version(vid)? {\n                vid = parent.parent_version_id;\n            } else {\n                // this version does not exist; \"this should not happen\" but if it does,\n                // we don't need a snapshot earlier than the missing version.\n                log::warn!(\"rejecting snapshot for version {version_id}: newer versions have already been deleted\");\n                return Ok(());\n            }",
+     "            search_len -= 1;\n            let parent = if search_len <= 0 || vid == NIL_VERSION_ID {\n                None\n            } else {\n                txn.get_version(vid)?\n            };\n            match parent {\n                Some(parent) => vid = parent.parent_version_id,\n                None => {\n                    log::warn!(\"rejecting snapshot for version {version_id}: too old, no such version, or history pruned\");\n                    return Ok(());\n                }\n            }"),
+], "two decline exits of add_snapshot merged into one (same conditions)")
